@@ -117,6 +117,10 @@ claim("C39", "Proof of the sampler's decision table (rate 1 keeps everything, er
       "sync.Mutex atomicity; the select is modelled as a nondeterministic choice between the ready send and the default.",
       ["that two records with the same key get the same decision (FNV hash determinism is not modelled)", "the writer goroutine and close/drain (goroutines are outside the engine)", "a trailing run of drops"])
 
+claim("C06", "Proof of the output collector's one-data-batch rule (object invariant dataBatchIdx == -1 or a valid index, over fields written only by the collector's own functions — checked package-wide): a second Emit is refused and changes nothing, the first records its index, Finish is refused exactly on an exchange collector, validate fails exactly when no data batch was emitted, ClientLog appends one batch and leaves the data index alone; and over the lockstep loop of serveStream that no turn has failed at the loop head, that every exception batch written is the first one and echoes the request id, and that a stream error returned from the loop was answered with an exception batch.",
+      "the emit interceptor callback is assumed not to touch the collector; arrow-go constructors / reference counts do not reach into this package's heap (assumed externs, under which emptyBatch's frame is proved).",
+      ["one data batch per input in input order as a statement about the wire (call order in the code only)", "header stream before data", "the cancel hook's at-most-once (single call site in a recovering literal; covered by the replay witnesses)"])
+
 # properties not claimed: reason
 NOT_APPLICABLE = {
     "C11": "relational two-run equivalence between the pipe loop and the HTTP handlers routed through gob, AEAD and Arrow IPC; contracts here are single-run and per function",
